@@ -9,8 +9,8 @@ var vRootMenu = []string{"/", "/a", "/a/", "/a/b", "/ab", "/{x}", "/a/{x}", "/a/
 
 // registration model: what a container should contain after a history
 type vRegSvc struct {
-	idx   int  // index into vRootMenu
-	extra bool // the extra route GET /x is present
+	idx   int // index into vRootMenu
+	extra int // how many copies of the extra route GET /x are present (0..2)
 }
 
 type vRegState struct {
@@ -86,19 +86,19 @@ func vApply(w *vRegWorld, st *vRegState, op int) bool {
 	case op >= 50 && op < 70:
 		idx := op - 50
 		k := st.find(idx)
-		if k < 0 || st.svcs[k].extra {
+		if k < 0 || st.svcs[k].extra >= 2 {
 			return false
 		}
 		w.addExtra(idx)
-		st.svcs[k].extra = true
+		st.svcs[k].extra++
 	case op >= 70 && op < 90:
 		idx := op - 70
 		k := st.find(idx)
-		if k < 0 || !st.svcs[k].extra {
+		if k < 0 || st.svcs[k].extra == 0 {
 			return false
 		}
 		w.service(idx).RemoveRoute(strings.TrimRight(vRootMenu[idx], "/")+"/x", "GET")
-		st.svcs[k].extra = false
+		st.svcs[k].extra = 0 // RemoveRoute removes every route with that method and path
 	case op == 90:
 		if st.plain {
 			return false
@@ -116,7 +116,7 @@ func vFresh(st vRegState, hits *[]string) *vRegWorld {
 	w := vNewWorld(hits)
 	for _, s := range st.svcs {
 		ws := w.service(s.idx)
-		if s.extra {
+		for n := 0; n < s.extra; n++ {
 			w.addExtra(s.idx)
 		}
 		w.c.Add(ws)
